@@ -98,25 +98,54 @@ Lemma dict_race_sequential :
   exists w, run_seq dict_race_history (world0 0) = Some w /\ freshb w uA = true.
 Proof. eexists. split; vm_compute; reflexivity. Qed.
 
-(* --- F17f (new with the version check): the check sits AFTER the dictionary refresh.  An outdated
-       did_change of a source file that arrives after the user dictionary has changed resets
-       dict / ident_dict / linter to the dictionary without identifiers and then returns: the identifiers
-       are not merged again, the newest text is re-published with them reported as misspelt. ----------- *)
+(* --- F17f is repaired (fix "an outdated update leaves the document state alone altogether"): the version
+       check is the first thing done under the doc_state lock --------------------------------------------- *)
+Lemma outdated_update_noop : forall l w t e,
+  s_lock w = false -> l_text l = Some t -> lookup (l_url l) (s_docs w) = Some e -> stale (l_ver l) (e_ver e) = true ->
+  exec IUpdate l w = Some ([], l, w).
+Proof. intros l w t e L T E S. cbn [exec]. rewrite L, T, E, S. reflexivity. Qed.
+
+(* the old witness of F17f: an outdated did_change of a source file arrives after the user dictionary has
+   changed.  The identifiers stay merged; what remains stale is the user dictionary (F17c: the command was
+   for another document) - the outdated update neither repairs nor worsens it. *)
 Definition code_text (n : nat) : text := mktext n 7.
 Definition stale_update_history : list op :=
   [Open uA LCode (code_text 0) 1; Change uA (code_text 1) 2; Change uA (code_text 2) 3; AddUser 5 uB].
-Definition stale_update_schedule : list choice :=
-  CAdmit :: repeat (CRun 0) 11 ++ [CAdmit; CAdmit; CAdmit] ++ repeat (CRun 2) 8 ++ repeat (CRun 3) 5 ++ repeat (CRun 1) 8.
+Definition stale_update_prefix : list choice :=
+  CAdmit :: repeat (CRun 0) 11 ++ [CAdmit; CAdmit; CAdmit] ++ repeat (CRun 2) 8 ++ repeat (CRun 3) 5 ++ repeat (CRun 1) 6.
+Definition stale_update_schedule : list choice := stale_update_prefix ++ repeat (CRun 1) 2.
 
-Lemma stale_update_drops_identifiers :
+Lemma stale_update_keeps_identifiers :
   exists y, run stale_update_schedule (init stale_update_history (world0 0)) = Some y /\ quiescent y /\
     exists a b, lastword (y_world y) uA = PDiag a /\ expected (y_world y) uA = PDiag b /\
                 a_text a = code_text 2 /\ a_text b = code_text 2 /\
-                dv_user (a_dict a) = [5] /\ dv_user (a_dict b) = [5] /\
-                dv_ident (a_dict a) = 0 /\ dv_ident (a_dict b) = 7.
+                dv_ident (a_dict a) = 7 /\ dv_ident (a_dict b) = 7 /\ a_ddict a = a_dict a.
 Proof.
   eexists. split; [vm_compute; reflexivity|]. split; [split; reflexivity|].
   do 2 eexists. repeat split; vm_compute; reflexivity.
+Qed.
+
+(* HISTORY (code before 1f0bfb7, kept only for this example): the critical section with the version check
+   AFTER the dictionary refresh.  In the state the schedule above reaches just before the outdated handler
+   takes the lock, the old code reset dict / ident_dict / linter and returned: identifiers dropped. *)
+Definition iupdate_before_1f0bfb7 (l : locals) (w : world) : option world :=
+  match l_text l, lookup (l_url l) (s_docs w) with
+  | Some _, Some e =>
+      let e1 := rebase (mkdict (l_ud l) (l_fd l) 0) (l_snap l) e in
+      if stale (l_ver l) (e_ver e1) then Some (set_docs (upsert (l_url l) e1 (s_docs w)) w) else None
+  | _, _ => None
+  end.
+
+Lemma stale_update_old_dropped_identifiers :
+  exists y h, run stale_update_prefix (init stale_update_history (world0 0)) = Some y /\
+    find_h 1 (y_flight y) = Some h /\ h_prog h = [IUpdate; IPublish] /\
+    (exists w' a, iupdate_before_1f0bfb7 (h_loc h) (y_world y) = Some w' /\ pubval w' uA = PDiag a /\ dv_ident (a_dict a) = 0) /\
+    exec IUpdate (h_loc h) (y_world y) = Some ([], h_loc h, y_world y) /\
+    (exists a, pubval (y_world y) uA = PDiag a /\ dv_ident (a_dict a) = 7).
+Proof.
+  do 2 eexists. split; [vm_compute; reflexivity|]. split; [vm_compute; reflexivity|]. split; [reflexivity|].
+  split; [do 2 eexists; split; [vm_compute; reflexivity|split; vm_compute; reflexivity]|].
+  split; [vm_compute; reflexivity|]. eexists. split; vm_compute; reflexivity.
 Qed.
 
 (* ================================================================================================
